@@ -3,7 +3,10 @@ COMMON_NOTE = ("Trusted base: go/types, go/ssa, go/packages, callgraph cha/vta (
                "/verif/tool. Decides only the named structural clauses (necessary conditions), not the behaviour; dominance is computed "
                "without pruning infeasible paths except boolean-flag correlation and the return statement of an inlined same-package helper. "
                "After its own rules each check also runs the rules of the mechanisms the property depends on (tool/support.go; every rule run is "
-               "listed with its instance count in the evidence): an open store always has the flusher and both collectors running behind every call.")
+               "listed with its instance count in the evidence): an open store always has the flusher and both collectors running behind every call. "
+               "Rules added in later rounds (DESIGN.md 9.9-9.20, e.g. errors-not-dropped with its frozen idiom table, bucket-writers, match-last, flush-waits, "
+               "flush-writes, record-readers, config-wiring of objects, handover-owners, commit-stops) are necessary conditions of the same kind; the evidence "
+               "lists every rule run, and DESIGN.md 9.1 tabulates them per property.")
 
 claim("C16", "DESIGN.md §2 C16",
       "Interprocedural must-hold lockset analysis from the thread roots the statement names: for every field of the store's shared structs, every conflicting access pair from concurrently runnable roots shares a lock held exclusively on one side; lock acquire/release is balanced on all paths; lock order is acyclic. A necessary condition of race freedom decided for all paths and call chains at once; channel happens-before, aliasing beyond the field abstraction and Open/Close/iterator entry points are not covered.",
